@@ -34,7 +34,7 @@ EXTENDS Integers, Sequences, FiniteSets, TLC
 
 CONSTANTS MaxBase,     \* number of entries of BaseExp in scope (6 = up to 2^127, 9 = all)
           MaxOff,      \* whole numbers x-MaxOff .. x+MaxOff around every big landmark x (1 or 2)
-          RecDepth     \* 0 = flat records only, 1 = records with one nested record
+          RecDepth     \* records built from the template: 0 = flat, 1 = with one nested record, 2 = both
 
 -----------------------------------------------------------------------------
 (* D. numbers *)
@@ -125,12 +125,13 @@ One32 == Whole("i32", N(0, 2))
 LeafAlts == {One32, Whole("i64", N(0, 2)), Whole("biguint", N(0, 2)), Float("fin", N(0, 2)),
              Whole("i32", N(0, 4)), Text(<<1>>), Extant}
 
-\* template  @a(L1) { L2: L3, L4 }  and (RecDepth = 1)  @a(L1) { L2: L3, { L4 } }
-Template(l1, l2, l3, l4) ==
-    Rec(<<Attr(<<1>>, l1)>>, <<Slot(l2, l3), IF RecDepth = 0 THEN VItem(l4) ELSE VItem(Rec(<<>>, <<VItem(l4)>>))>>)
-OneLeafVariants ==
-    {Template(l, One32, One32, One32) : l \in LeafAlts} \cup {Template(One32, l, One32, One32) : l \in LeafAlts} \cup
-    {Template(One32, One32, l, One32) : l \in LeafAlts} \cup {Template(One32, One32, One32, l) : l \in LeafAlts}
+\* template  @a(L1) { L2: L3, L4 }  (depth 0)  and  @a(L1) { L2: L3, { L4 } }  (depth 1); RecDepth = 2: both
+Template(l1, l2, l3, l4, d) ==
+    Rec(<<Attr(<<1>>, l1)>>, <<Slot(l2, l3), IF d = 0 THEN VItem(l4) ELSE VItem(Rec(<<>>, <<VItem(l4)>>))>>)
+Depths == IF RecDepth = 2 THEN {0, 1} ELSE {RecDepth}
+OneLeafVariants == UNION {
+    {Template(l, One32, One32, One32, d) : l \in LeafAlts} \cup {Template(One32, l, One32, One32, d) : l \in LeafAlts} \cup
+    {Template(One32, One32, l, One32, d) : l \in LeafAlts} \cup {Template(One32, One32, One32, l, d) : l \in LeafAlts} : d \in Depths}
 \* structural neighbours: empty, attribute only, other name, item vs slot, prefix, extension
 Shapes == {Rec(<<>>, <<>>),
            Rec(<<Attr(<<1>>, Extant)>>, <<>>),
